@@ -232,6 +232,14 @@ def oracle_server(ctx, data, o_parser, out, closed, escaped):
         if len(finals) < n_complete:
             ctx.violation("C05/server/request-unanswered-connection-open", case,
                           f"{n_complete} complete requests parsed, {len(finals)} final responses, connection left open")
+    # independent of what the parser says: a stream (delivered in one read) whose strict reading fails is answered
+    # with a client error — "instead of being given some interpretation"
+    _, status, _ = rfc9112.read_requests(data)
+    # (not while the parser is still waiting for the rest of a line / header block: it may notice later than the strict reader)
+    if status.startswith("bad") and not o_parser["pending"] and (not codes or not (400 <= codes[-1] < 500)):
+        ctx.violation("C01/server/strict-malformed-not-answered-4xx/" + status[4:].replace(" ", "-").replace("/", "-"), case,
+                      f"the strict reading fails ({status}) but the responses are {codes} (closed={closed})")
+        return
     if o_parser["err"] is not None:
         # parse error ⇒ a client error is sent and the connection is closed
         if not codes or not (400 <= codes[-1] < 500):
